@@ -3,7 +3,7 @@ CONSTANTS
   MaxResp = 2
   MaxRecv = 2
   MaxOps = 5
-  Mode = "base"
+  Mode = "base+"
 INVARIANT SpentNotEnabled
 INVARIANT EachOnce
 INVARIANT OrdConsistent
@@ -17,3 +17,5 @@ PROPERTY FaultTransparent
 PROPERTY SpecIsLegal
 PROPERTY NoPrefixMatch
 PROPERTY UntouchedFireOnce
+PROPERTY NextDatagramProcessed
+PROPERTY HostileChangesNothing
